@@ -57,6 +57,11 @@ func (b *RulesBuilder) Apply(rules []*config_parser.RoutingRule) (err error) {
 				return fmt.Errorf("unknown function: %v", f.Name)
 			}
 			paramValueGroups, keyOrder := groupParamValuesByKey(f.Params)
+			if len(keyOrder) == 0 {
+				// Nothing would be emitted for this condition, not even its AND/outbound
+				// marker, which would silently fuse this rule with the next one.
+				return fmt.Errorf("failed to parse '%v': condition has no value to match", f.String(false, false, false))
+			}
 			for jMatchSet, key := range keyOrder {
 				paramValueGroup := paramValueGroups[key]
 				// Preprocess the outbound.
